@@ -16,7 +16,7 @@ from absint.values import *
 from mir import short_span
 
 MAX_DEPTH = 12
-MAX_PARTS = 24
+MAX_PARTS = 40
 WIDEN_AFTER = 3
 MAX_VISITS = 40
 USIZE_MAX = (1 << 64) - 1
@@ -96,6 +96,7 @@ class Interp:
         self.model_used = {}
         self.stack_keys = []
         self.inv_checks = {}
+        self.ret_hooks = {}          # workspace callee key -> fn(interp, state, caller frame, return value): rule-supplied ghosts
         self._cur = (0, 0, 0)
         self.loops = {}              # (body key, frame id, head bb) -> (head partitions, back-edge states) at the fixpoint
         self.ghosts = {}             # quotient ghost variable -> (dividend Lin, divisor)
@@ -888,16 +889,19 @@ class Interp:
         """discrete part of a state: the variant sets of enum values (nested up to depth 3) and known booleans"""
         items = []
 
-        def walk(path, v, d):
+        def walk(path, v, d, in_result=False):
             if isinstance(v, Enum):
                 items.append((path, tuple(sorted(v.v))))
                 if d < 3:
                     for i, s in v.v.items():
-                        walk("%s#%d" % (path, i), s, d + 1)
-            elif isinstance(v, Struct) and d < 3:
+                        walk("%s#%d" % (path, i), s, d + 1, in_result or (v.adt == "std::result::Result" and i == 1))
+            elif isinstance(v, Struct) and d < 4:
                 for i, x in v.f.items():
                     if isinstance(x, (Enum, Struct)):
-                        walk("%s.%s" % (path, i), x, d + 1)
+                        walk("%s.%s" % (path, i), x, d + 1, in_result)
+                    elif in_result and isinstance(x, Num):
+                        # the symbolic shape of a Result payload keeps outcomes of different return sites apart
+                        items.append(("%s.%s" % (path, i), repr(x.e)))
         for c, v in st.cells.items():
             if isinstance(v, (Enum, Struct, Cond)):
                 walk(c, v, 0)
@@ -956,7 +960,17 @@ class Interp:
                 s.forget(dead)
         if self.trace == "JOIN":
             print("JOIN sa", sa, "\n     sb", sb)
-        sysj = sys_join(sa, sb)
+        # octagon-style candidates between the phi variables of this join: p - q >= min over both sides
+        extra = []
+        pv = [t for t, _ in phis]
+        if 2 <= len(pv) <= 6:
+            for i_, p_ in enumerate(pv):
+                for q_ in pv[i_ + 1:]:
+                    for d_ in (Lin.var(p_) - Lin.var(q_), Lin.var(q_) - Lin.var(p_)):
+                        ma, mb = sa.min_of(d_), sb.min_of(d_)
+                        if ma is not None and mb is not None and abs(min(ma, mb)) <= (1 << 20):
+                            extra.append(d_ - min(ma, mb))
+        sysj = sys_join(sa, sb, extra_candidates=extra)
         if self.trace == "JOIN":
             print("   => ", sysj)
         # canonical names for the phi variables
@@ -1049,7 +1063,7 @@ class Interp:
                                     continue
                                 j = self.join_states(old[key], parts[key], "%s:bb%d" % (fr.id, bb))
                                 if n > WIDEN_AFTER:
-                                    j.sys = sys_widen(old[key].sys, j.sys)
+                                    j.sys = sys_widen(old[key].sys, j.sys, thresholds=(n <= WIDEN_AFTER + 3))
                                 if self.state_leq(j, old[key]):
                                     newparts[key] = old[key]
                                 else:
@@ -1104,12 +1118,34 @@ class Interp:
             out.extend(results[bb])
         return out
 
+    def exit_chain(self, body):
+        """blocks from which the function returns without further branching or calls: return states are kept
+        apart there (one per return site) instead of being joined"""
+        c = getattr(body, "_exit_chain", None)
+        if c is None:
+            c = set()
+            changed = True
+            while changed:
+                changed = False
+                for bi, blk in enumerate(body.blocks):
+                    if bi in c:
+                        continue
+                    t = blk["term"]
+                    if t["k"] == "return" or (t["k"] in ("goto", "drop") and t["t"] in c):
+                        c.add(bi)
+                        changed = True
+            body._exit_chain = c
+        return c
+
     def merge_parts(self, states, fr, bb):
         parts = {}
-        for st in states:
+        keep_apart = bb in self.exit_chain(fr.body)
+        for n_, st in enumerate(states):
             if st.sys.bottom:
                 continue
             k = self.partition_key(st, fr)
+            if keep_apart:
+                k = k + (("#site", n_),)
             if k in parts:
                 parts[k] = self.join_states(parts[k], st, "%s:bb%d" % (fr.id, bb))
             else:
@@ -1336,9 +1372,12 @@ class Interp:
         out = []
         pre = fid + ":_"
         pre2 = fid + "/"
+        hook = self.ret_hooks.get(key) or self.ret_hooks.get(callee.defp)
         for st2, ret in res:
             for c in [c for c in st2.cells if c.startswith(pre) or c.startswith(pre2)]:
                 del st2.cells[c]
+            if hook is not None:
+                hook(self, st2, fr, ret)
             self.gc(st2, extra=ret)
             out.append((st2, ret))
         return out
